@@ -129,12 +129,91 @@ def run_stream(ctx, spec, st, replay, scale, hbin, coqc_shards):
     return {"stats": stats, "rejections": rejections, "monitor_failures": mfails, "samples": samples}
 
 
+OPS_SLICE = {"C01": {1, 2, 3}, "C12": {2}, "C13": {1}, "C17": {1}, "C15": {3}}
+
+
+def ops_stream(ctx, spec, st, replay, scale, hbin, coqc_shards):
+    pid = ctx.pid
+    out = os.path.join(ctx.work, "ops_" + st["name"])
+    os.makedirs(out, exist_ok=True)
+    shards = 16
+    master = ctx.seed * 1000 + st.get("salt", 0)
+    frm, count, profile = 0, st["count"][ctx.tier] * scale, st.get("profile", "mixed")
+    if replay:
+        rp = json.load(open(replay))
+        if rp.get("stream") != "ops":
+            return {"stats": {}, "rejections": [], "monitor_failures": [], "samples": []}
+        master, frm, count, profile, shards = rp["master"], rp["idx"], 1, rp["profile"], 1
+    t0 = time.time()
+    p = subprocess.run([hbin, "ops", "--master", str(master), "--from", str(frm), "--count", str(count),
+                        "--shards", str(shards), "--profile", profile, "--out-dir", out],
+                       stdout=subprocess.PIPE, stderr=subprocess.STDOUT, text=True, timeout=3000)
+    t_h = time.time() - t0
+    if p.returncode != 0:
+        payload = {"stream": "ops", "master": master, "idx": frm, "profile": profile, "kind": "harness-crash",
+                   "output": p.stdout[-2000:], "property": pid}
+        return {"stats": {"observations": 0, "harness_exit": p.returncode}, "rejections": [],
+                "monitor_failures": [payload], "samples": []}
+    t1 = time.time()
+    outs = coqc_shards(ctx, sorted(glob_(out, "ops_*.v")))
+    t_c = time.time() - t1
+    obs = {}
+    for jf in glob_(out, "ops_*.json"):
+        for o in json.load(open(jf)):
+            obs[o["idx"]] = o
+    lines, coq_errors = [], []
+    for vf, (rc, text) in outs.items():
+        if rc != 0 or "Error" in text:
+            coq_errors.append((vf, text[-1500:]))
+        for m in re.finditer(r'"OPS ([^"]*) END"', text):
+            lines.append(m.group(1))
+    rejections, mfails, samples = [], [], []
+    dist = collections.Counter()
+    sigs = set()
+    nontriv = 0
+    for ln in lines:
+        kv = dict(x.split("=", 1) for x in ln.split())
+        idx = int(kv["idx"])
+        o = obs.get(idx, {})
+        base = {"stream": "ops", "master": master, "idx": idx, "profile": profile, "property": pid, "verdict": ln,
+                "observation": {k: o.get(k) for k in ("yaml", "coq", "n_mut", "n_cross", "panicked")}}
+        if kv["acc"] != "ok":
+            m = re.match(r"rej@(\d+)/(\d+)", kv["acc"])
+            k = int(m.group(2))
+            if k in OPS_SLICE.get(pid, set()):
+                rejections.append(dict(base, kind="acceptor-rejection", at_op=int(m.group(1)),
+                                       op_kind={1: "mutate", 2: "crossover", 3: "panic"}.get(k, str(k))))
+        if kv.get(pid) == "0":
+            mfails.append(dict(base, kind="monitor-false", monitor="mon_" + pid))
+        sig = hashlib.sha1((o.get("coq") or "").encode()).hexdigest()
+        if sig not in sigs:
+            sigs.add(sig)
+            if o.get("n_mut", 0) + o.get("n_cross", 0) >= 2:
+                nontriv += 1
+        for kd in set((o.get("kinds") or "").split(",")):
+            if kd:
+                dist["spec_has_" + kd.replace(" ", "_")] += 1
+        dist["mutations_total"] += o.get("n_mut", 0)
+        dist["crossovers_total"] += o.get("n_cross", 0)
+        if o.get("panicked"):
+            dist["panicked"] += 1
+        if len(samples) < 1 and o.get("coq") and len(o["coq"]) < 1500:
+            samples.append({"stream": "ops", "idx": idx, "yaml": o.get("yaml"), "coq": o.get("coq"), "verdict": ln})
+    if coq_errors or len(lines) != count:
+        rejections.append({"stream": "ops", "master": master, "profile": profile, "property": pid,
+                           "kind": "checker-error", "expected": count, "judged": len(lines), "errors": coq_errors[:2]})
+    stats = {"observations": len(lines), "distinct": len(sigs), "distinct_nontrivial": nontriv,
+             "rule": "operator chains on generated specs (master=%d, profile=%s); distinct = different (spec, chain); non-trivial = at least two operator calls" % (master, profile),
+             "harness_s": round(t_h, 1), "coqc_s": round(t_c, 1), "distribution": dict(dist)}
+    return {"stats": stats, "rejections": rejections, "monitor_failures": mfails, "samples": samples}
+
+
 def glob_(d, pat):
     import glob
     return glob.glob(os.path.join(d, pat))
 
 
-STREAMS = {"run": run_stream}
+STREAMS = {"run": run_stream, "ops": ops_stream}
 
 CTL_FILES = ["theories/Ctl.vo", "theories/CtlProofs.vo"]
 
@@ -152,8 +231,24 @@ def _run_prop(propfile_id, streams, extra_assumptions=None, tested=None):
     }
 
 
+def _ops_prop(propfile_id, streams, extra=None, tested=None):
+    return {
+        "propfile": "theories/Properties/%s.v" % propfile_id,
+        "coq_targets": ["theories/Properties/%s.vo" % propfile_id],
+        "checkers": ["OpsCheck"],
+        "streams": streams,
+        "assumptions": [
+            "operators are modelled as executable relations (Ops.mut_check / Ops.cross_check): which outputs are possible for SOME RNG state; theorems hold for every accepted output, hence for all RNG states",
+            "Bernoulli(p) can be true iff p >= 2^-64, false iff p < 1; choose/select/shuffle can yield any element/order; a Cauchy sample can be any float (rand 0.8 / rand_distr 0.4 as read from their sources)",
+            "rescaling factors are identically 1.0 (SourceFacts.rescaling_never_assigned)",
+        ] + (extra or []),
+        "tested_not_proved": ["that the Rust operators refine the relations: every observed (input, output) pair of real mutate/crossover calls is checked against them"] + (tested or []),
+    }
+
+
 PROPS = {
-    "C02": _run_prop("C02", [{"kind": "run", "name": "mixed", "profile": "mixed", "count": {"quick": 320, "thorough": 4000}, "salt": 2}],
+    "C02": _run_prop("C02", [{"kind": "run", "name": "mixed", "profile": "mixed", "count": {"quick": 240, "thorough": 3000}, "salt": 2},
+                             {"kind": "run", "name": "evict", "profile": "evict", "count": {"quick": 48, "thorough": 600}, "salt": 22}],
                      ["best_is_min_ss1 is stated for any total preorder on objective values with mean [x] ~ x; that FiniteF64::cmp and the f64 mean satisfy this is exercised by the acceptor (Flocq Bcompare / Bplus / Bdiv under vm_compute), not proved"]),
     "C03": _run_prop("C03", [{"kind": "run", "name": "mixed", "profile": "mixed", "count": {"quick": 320, "thorough": 4000}, "salt": 3}]),
     "C04": _run_prop("C04", [{"kind": "run", "name": "stop", "profile": "stop", "count": {"quick": 320, "thorough": 4000}, "salt": 4}],
@@ -165,4 +260,11 @@ PROPS = {
                              {"kind": "run", "name": "mixed", "profile": "short", "count": {"quick": 160, "thorough": 2000}, "salt": 88}]),
     "C14": _run_prop("C14", [{"kind": "run", "name": "mixed", "profile": "mixed", "count": {"quick": 320, "thorough": 4000}, "salt": 14}],
                      None, ["best-seen file and CSV rows (Writer) are not modelled yet", "probabilities in [0,1] / positive finite scale of meta parameters: monitored on every report item, theorem pending (operator layer)"]),
+    "C12": _ops_prop("C12", [{"kind": "ops", "name": "mixed", "profile": "mixed", "count": {"quick": 480, "thorough": 8000}, "salt": 12}]),
+    "C13": _ops_prop("C13", [{"kind": "ops", "name": "mixed", "profile": "mixed", "count": {"quick": 320, "thorough": 6000}, "salt": 13},
+                             {"kind": "ops", "name": "p1", "profile": "p1", "count": {"quick": 160, "thorough": 2000}, "salt": 131},
+                             {"kind": "ops", "name": "p0", "profile": "p0", "count": {"quick": 96, "thorough": 1000}, "salt": 130}]),
+    "C17": _ops_prop("C17", [{"kind": "ops", "name": "p1", "profile": "p1", "count": {"quick": 320, "thorough": 6000}, "salt": 17}],
+                     tested=["benchmark battery (known-optimum problems) and 'within a few attempts' for reals/ints: statements about one pseudo-random trajectory, tested only",
+                             "rank monotonicity of selection for 0 < pressure < 1 (probabilities): not yet proved; the relation only says which ranks are possible"]),
 }
